@@ -9,14 +9,32 @@ import (
 // makeSFO builds a well-formed PARAM.SFO holding the given string fields in the given key order
 // (psdevwiki layout: 20-byte header, 16-byte index entries, key table, 4-aligned data table).
 func makeSFO(fields map[string]string, order []string) []byte {
+	return makeSFOKeyOrder(fields, order, nil)
+}
+
+// makeSFOKeyOrder lays the key table out in keyOrder (a permutation of order; nil = index order):
+// index entries carry offsets, so any order is well-formed.
+func makeSFOKeyOrder(fields map[string]string, order []string, keyOrder []string) []byte {
 	n := len(order)
 	var keys, data []byte
 	type ent struct{ koff, doff, dlen, dmax uint32 }
 	ents := make([]ent, n)
+	koffOf := map[string]uint32{}
+	if keyOrder != nil {
+		for _, k := range keyOrder {
+			koffOf[k] = uint32(len(keys))
+			keys = append(keys, k...)
+			keys = append(keys, 0)
+		}
+	}
 	for i, k := range order {
-		ents[i].koff = uint32(len(keys))
-		keys = append(keys, k...)
-		keys = append(keys, 0)
+		if keyOrder != nil {
+			ents[i].koff = koffOf[k]
+		} else {
+			ents[i].koff = uint32(len(keys))
+			keys = append(keys, k...)
+			keys = append(keys, 0)
+		}
 		v := append([]byte(fields[k]), 0)
 		ents[i].doff = uint32(len(data))
 		ents[i].dlen = uint32(len(v))
